@@ -89,6 +89,9 @@ class PyKdebugParser:
         return map(lambda t: self._format_trace(t), self.traces(kdebug, trace_codes))
 
     def callstacks(self, kdebug: io.IOBase, trace_codes=None):
+        # Images known from a previous request must not be attributed to this one.
+        self.dyld_addresses.clear()
+        self.dyld_uuids.clear()
         callstacks_parser = CallstacksParser(self.dyld_addresses, self.dyld_uuids)
         return callstacks_parser.feed_generator(self.traces(kdebug, trace_codes))
 
